@@ -66,8 +66,12 @@ def run_check(mod, tier, *, streams=None, runs=None, budget_s=None):
     for target, v in sorted(by_class.items())[:3]:
         case, dec = v["case"], v["decisions"]
         try:
-            mcase, mdec = e1.minimise(case, dec, target, mod.evaluate,
-                                      budget_s=90.0 if tier == "quick" else 240.0)
+            if case.get("mode") == "process":
+                mcase, mdec = mod.minimise_process(v, target)
+            else:
+                mcase, mdec = e1.minimise(
+                    case, dec, target, mod.evaluate,
+                    budget_s=90.0 if tier == "quick" else 240.0)
         except Exception as exc:  # noqa: BLE001
             print(f"[{prop}] minimisation failed ({exc!r}); keeping the "
                   "original case", flush=True)
